@@ -210,14 +210,14 @@ func (r *rs) r4() {
 						continue
 					}
 					k++
-					buf := r.bufferOf(fn.Decl.Body, bobj, mk.(*ast.AssignStmt).Rhs[0].(*ast.CallExpr).Args[1])
-					opq := flow.Opaque(g, buf.understood, bobj)
+					buf := flow.NewBuffer(info, fn.Decl.Body, bobj, mk.(*ast.AssignStmt).Rhs[0].(*ast.CallExpr).Args[1])
+					opq := flow.Opaque(g, buf.Understood, bobj)
 					for _, t := range []struct {
 						off  int64
 						ch   int64
 						name string
 					}{{-2, '\r', "cr"}, {-1, '\n', "lf"}} {
-						r.guard("R4.term", "decodeBulkBytes/"+t.name, ret.Pos(), g, p, buf.establishes(shift(buf.length, t.off), t.ch), opq,
+						r.guard("R4.term", "decodeBulkBytes/"+t.name, ret.Pos(), g, p, buf.Establishes(flow.Shift(buf.Length, t.off), t.ch), opq,
 							fmt.Sprintf("after the body was read a value may be returned only when byte %d of the buffer (counted from its end) was found to be %q: a bulk not followed by CR LF is malformed and must yield an error", t.off, rune(t.ch)))
 					}
 					if len(ret.Results) == 2 && pat.Expr("_b[:_n]").Match(info, flow.Resolve(info, fn.Decl.Body, ret.Results[0]), b) != nil {
@@ -297,8 +297,8 @@ func (r *rs) line(name string, returnsPrefix bool) {
 		c.Undecidedf("R4.term", name+"/crlf", as.Pos(), "the line is not bound to a variable")
 		return
 	}
-	buf := r.bufferOf(fn.Decl.Body, bobj, nil)
-	opq := flow.Opaque(g, buf.understood, bobj)
+	buf := flow.NewBuffer(info, fn.Decl.Body, bobj, nil)
+	opq := flow.Opaque(g, buf.Understood, bobj)
 	ap, _ := flow.PointOf(g, as)
 	k := 0
 	for _, p := range g.Points(func(m ast.Node) bool {
@@ -310,9 +310,9 @@ func (r *rs) line(name string, returnsPrefix bool) {
 			continue
 		}
 		k++
-		r.guard("R4.term", name+"/min-length", ret.Pos(), g, p, buf.atLeast(2), opq,
+		r.guard("R4.term", name+"/min-length", ret.Pos(), g, p, buf.AtLeast(2), opq,
 			"a value may be returned only when the line has at least 2 bytes: the 1-byte line \"\\n\" must yield an error, not an index panic")
-		r.guard("R4.term", name+"/cr", ret.Pos(), g, p, buf.establishes(shift(buf.length, -2), '\r'), opq,
+		r.guard("R4.term", name+"/cr", ret.Pos(), g, p, buf.Establishes(flow.Shift(buf.Length, -2), '\r'), opq,
 			"a value may be returned only when the byte before the LF is CR: a line without CR LF is malformed and must yield an error")
 		if returnsPrefix {
 			rs, _ := ret.(*ast.ReturnStmt)
@@ -328,7 +328,7 @@ func (r *rs) line(name string, returnsPrefix bool) {
 			// the value is b[:len(b)-2]
 			okVal := false
 			if se, isSlice := ast.Unparen(val).(*ast.SliceExpr); val != nil && isSlice && flow.IsObj(info, bobj)(se.X) && se.Max == nil && se.High != nil && (se.Low == nil || isConst(info, se.Low, 0)) {
-				okVal = lin.Of(info, se.High).Equal(shift(buf.length, -2))
+				okVal = lin.Of(info, se.High).Equal(flow.Shift(buf.Length, -2))
 			}
 			if okVal {
 				c.Okf("R4.term", name+"/payload", ret.Pos(), "the text value is the line without its 2 terminator bytes (b[:len(b)-2])")
@@ -361,7 +361,7 @@ func (r *rs) r5enc(name string) {
 		}
 	}
 	// a test of len(v) is understood: it cannot tell nil from empty, so it never establishes either fact
-	vlen := r.bufferOf(fn.Decl.Body, v, nil).length
+	vlen := flow.NewBuffer(info, fn.Decl.Body, v, nil).Length
 	opq := flow.Opaque(g, func(f cfgq.Fact) bool {
 		_, ok := flow.NilCmp(info, f, isV)
 		return ok || flow.LinAbout(info, f, vlen)
